@@ -746,7 +746,12 @@ func (in *Interp) assertProp(c *Term, label string) {
 	} else if in.ex.enough(label) && !c.IsConst() {
 		// this assertion already has counterexample candidates from other paths:
 		// do not spend more solver time on it, continue under the assumption that it holds
+		// (choice 3: without adding it to the path condition when it contains arithmetic
+		// the solvers are slow on - later findings on this path are replayed natively anyway)
 		choice = 2
+		if in.needsCong(c) {
+			choice = 3
+		}
 	} else {
 		nc := in.tt.Not(c)
 		var v Verdict
@@ -814,7 +819,7 @@ func (in *Interp) assertProp(c *Term, label string) {
 		}
 	}
 	in.trace = append(in.trace, choice)
-	if choice == 1 {
+	if choice == 1 || choice == 3 {
 		return
 	}
 	if c.IsConst() {
